@@ -72,8 +72,8 @@ Qed.
 (* ------------------------------------------------------------------------------------------- *)
 (* extract_python_block                                                                         *)
 (* ------------------------------------------------------------------------------------------- *)
-Lemma py_new_go_bounds : forall fx start rest acc k c n,
-  py_new_go fx start rest acc k = POk (c, n) -> k < n /\ n <= k + length rest.
+Lemma py_new_go_bounds : forall fx op start rest acc k c n,
+  py_new_go fx op start rest acc k = POk (c, n) -> k < n /\ n <= k + length rest.
 Proof.
   induction rest as [|line rest IH]; intros acc k c n H; simpl in H; [discriminate|].
   destruct (String.eqb (strip line) "@endpy").
@@ -81,18 +81,18 @@ Proof.
   - apply IH in H. simpl. lia.
 Qed.
 
-Lemma py_new_go_allowed : forall fx b start rest acc k, allowed b (py_new_go fx start rest acc k).
+Lemma py_new_go_allowed : forall fx b op start rest acc k, allowed b (py_new_go fx op start rest acc k).
 Proof.
   induction rest as [|line rest IH]; intros; simpl; auto.
   destruct (String.eqb (strip line) "@endpy"); simpl; auto.
 Qed.
 
-Lemma py_old_go_bounds : forall rest base acc k,
-  k < snd (py_old_go rest base acc k) /\ snd (py_old_go rest base acc k) <= S (k + length rest).
+Lemma py_old_go_bounds : forall op rest base acc k,
+  k < snd (py_old_go op rest base acc k) /\ snd (py_old_go op rest base acc k) <= S (k + length rest).
 Proof.
   induction rest as [|line rest IH]; intros; simpl; [lia|].
   destruct (String.eqb (strip line) ">>"); simpl; [lia|].
-  match goal with |- context [py_old_go rest ?b ?a ?k'] => specialize (IH b a k') end. lia.
+  match goal with |- context [py_old_go op rest ?b ?a ?k'] => specialize (IH b a k') end. lia.
 Qed.
 
 (* new syntax: 1 <= consumed <= len - start; legacy syntax: an unclosed block reports one more *)
@@ -105,7 +105,7 @@ Proof.
   assert (L : start < length lines) by (apply nth_error_Some; rewrite E; discriminate).
   destruct (startswith (strip line) "<<py").
   - inversion H as [H1]. unfold extract_py_old_syntax in *.
-    pose proof (py_old_go_bounds (skipn (S start) lines) None [] 1) as B.
+    pose proof (py_old_go_bounds (nth start lines EmptyString) (skipn (S start) lines) None [] 1) as B.
     rewrite skipn_length in B. rewrite H1 in B. cbn [snd] in B. lia.
   - destruct (startswith (strip line) "@py"); [|discriminate].
     unfold extract_py_new_syntax_v in H. rewrite E in H.
@@ -144,7 +144,7 @@ Proof.
     destruct (startswith (strip line) "@py"); [|discriminate].
     unfold extract_py_new_syntax_v in H. rewrite E in H.
     destruct (negb (String.eqb (strip line) "@py:")); [discriminate|].
-    pose proof (py_new_go_allowed fx false start (skipn (S start) lines) [] 1) as A.
+    pose proof (py_new_go_allowed fx false line start (skipn (S start) lines) [] 1) as A.
     rewrite H in A. simpl in A. discriminate.
   - apply nth_error_None in E. inversion H. auto.
 Qed.
@@ -250,7 +250,7 @@ Lemma join_collect_bounds : forall indent rest block k,
 Proof.
   induction rest as [|line rest IH]; intros; simpl; [lia|].
   destruct (is_join_block_terminator line); simpl; [lia|].
-  destruct (negb (nonempty (strip line))).
+  destruct (negb (nonempty (strip line)) || is_comment_line line).
   - specialize (IH (block ++ [line]) (S k)). lia.
   - destruct (ws_run line <=? indent); simpl; [lia|]. specialize (IH (block ++ [line]) (S k)). lia.
 Qed.
@@ -263,7 +263,7 @@ Proof.
   destruct (join_collect indent (skipn start lines) [] 0) as [block k'].
   destruct block.
   - inversion H; subst. lia.
-  - destruct (join_parse lf start (detect_and_strip_indentation (s :: block)) 0 [] []) as [[c e]|d|e|];
+  - cbv zeta in H. destruct (join_parse lf start _ [] []) as [[c e]|d|e|];
       simpl in H; try discriminate. inversion H; subst. cbn [snd] in B. lia.
 Qed.
 
@@ -664,9 +664,9 @@ End Outcomes.
 (* extract_join_choice_block                                                                    *)
 (* ------------------------------------------------------------------------------------------- *)
 Lemma join_parse_allowed : forall b lf, (forall s, allowed b (lf_content lf s)) ->
-  forall start ded j content exec, allowed b (join_parse lf start ded j content exec).
+  forall start items content exec, allowed b (join_parse lf start items content exec).
 Proof.
-  intros b lf H start. induction ded as [|line r IH]; intros; cbn [join_parse]; [exact I|].
+  intros b lf H start. induction items as [|[j line] r IH]; intros; cbn [join_parse]; [exact I|].
   cbv zeta.
   destruct (negb (nonempty (strip line))); [apply IH|].
   destruct (startswith (strip line) "#"); [apply IH|].
